@@ -242,6 +242,40 @@ def run(tier):
                 if got is None or got['vals'] != [ftok(want)]:
                     chk.fail('index:bounds-not-exact', case, f'{lab}: the rows written have {want!r} (as {dtype}), the file has '
                                                              f'{got and got["vals"]}')
+        # a frame without index type is indexed by row number whatever its first channel looks like (several samples per
+        # row included): INDEX-MIN 1, INDEX-MAX the number of rows written, SPACING 1
+        for _ in range(20 if tier == 'quick' else 200):
+            n, k = R.choice([1, 2, 5, 9]), R.choice([1, 2, 3, 8])
+            first = np.arange(n * k, dtype=R.choice(['float32', 'int16', 'uint8'])).reshape(n, k) if k > 1 or R.random() < 0.5 \
+                else np.arange(n, dtype='float64')
+            df = DLISFile(set_identifier='IDX', max_record_length=8192)
+            lf = df.add_logical_file()
+            lf.add_origin('O', file_set_number=1, creation_time='2020/01/01 00:00:00')
+            c0 = lf.add_channel('IMG', data=first)
+            c1 = lf.add_channel('X', data=np.arange(n, dtype=np.float32))
+            lf.add_frame('FR', channels=[c0, c1])
+            lo_i = R.choice([None, 1]) if n >= 3 else None
+            hi_i = R.choice([None, n - 1]) if n >= 3 else None
+            kw = {}
+            if lo_i is not None:
+                kw['from_idx'] = lo_i
+            if hi_i is not None:
+                kw['to_idx'] = hi_i
+            st, err = call(df.write, path, output_chunk_size=2**20, **kw)
+            written = len(range(n)[slice(lo_i, hi_i)])
+            case = {'first_channel_shape': list(first.shape), 'index_type': None, 'from_idx': lo_i, 'to_idx': hi_i}
+            chk.case('row-number-frames', nontrivial_key=('rn', first.shape, str(first.dtype), lo_i, hi_i), sample={**case, 'status': st})
+            if st != 'ok':
+                chk.fail('index:valid-frame-refused', case, f'the write raises {err}')
+                continue
+            if not bres.ok:
+                continue
+            a = frame_attrs(model, open(path, 'rb').read())
+            for lab, want in (('INDEX-MIN', 1), ('INDEX-MAX', written), ('SPACING', 1)):
+                got = a and a.get(lab)
+                if got is None or got['vals'] not in ([ftok(want)], [f'i{want}']):
+                    chk.fail('index:row-number-bounds', case, f'{lab}: {written} rows are written (frame numbers 1..{written}), the '
+                                                              f'file has {got and got["vals"]}')
         # user-supplied values are written unchanged
         for _ in range(80 if tier == 'quick' else 600):
             # index values never start, end or step at zero: a supplied zero differs from every derived value
